@@ -250,6 +250,7 @@ class Emitter:
         n = ty.name
         if n == 'T' and self.template_arg: n = self.template_arg
         if n in SCALARS: return SCALARS[n]
+        if n.startswith('std::chrono::'): self.dropped.add('std::chrono duration types (plain 64-bit tick counts)'); return 'int64_t'
         if n in OPAQUE: return OPAQUE[n]
         if n in VEC_ELEM: return self.vec_struct(SCALARS[VEC_ELEM[n]])
         if n == 'std::vector':
@@ -641,6 +642,8 @@ class Emitter:
                 return ('self->' + path, mty)
         r = self.resolve_const([name], cx.D)
         if r: return r
+        for (gty, gname, ginit, gf, gl) in getattr(self.u, 'globals', []):
+            if gname == name: return (name, gty)
         if name in ('Z_OK',): return (name, Type('int'))
         raise EmitError('%s: unresolved identifier %s' % (cx.fname, name))
 
@@ -790,6 +793,12 @@ class Emitter:
         f = e[1]; args = e[2]
         if f[0] == 'member':
             obj_e, mname, arrow = f[1], f[2], f[3]
+            if mname == 'wait_for' and len(args) == 3 and args[2][0] == 'lambda':
+                # timed wait: true when the predicate holds, false on timeout (the duration itself is not modelled)
+                self.ex(args[1], cx)
+                cvt, call = self.lift_wait(e, cx, getattr(cx.fd, 'line', 0))
+                self.dropped.add('the duration of condition_variable::wait_for')
+                return ('VB_WAIT_FOR(&%s, %s)' % (cvt, call), Type('bool'))
             if obj_e[0] == 'id' and obj_e[1] in getattr(cx, 'lockvars', {}) and mname in ('lock', 'unlock') and not args:
                 # std::unique_lock::unlock() / lock(): the critical section ends / resumes here
                 return ('%s(&%s)' % ('VB_UNLOCK' if mname == 'unlock' else 'VB_LOCK', cx.lockvars[obj_e[1]]), None)
@@ -1170,35 +1179,41 @@ class Emitter:
         out += pad + 'if (vb_exc) %s\n' % self.exc_action(cx)
         return out
 
+    def lift_wait(self, e, cx, line):
+        """condition_variable::wait / wait_for with a predicate lambda: the predicate becomes a function of its own
+           (self + the captured locals); -> (C text of the condition variable, C text of the predicate call)"""
+        cvt, cvty = self.ex(e[1][1], cx)
+        if self.member_kind(cvty) != 'cv': raise EmitError('%s: wait on non condition_variable' % cx.fname)
+        lam = e[2][-1]
+        body = lam[3][1]
+        if lam[2] or len(body) != 1 or body[0][0] != 'return':
+            raise EmitError('%s:%d: wait predicate must be a single return expression' % (cx.fname, line))
+        pe = body[0][1]
+        free = self.free_locals(pe, cx)
+        cx.wait_no += 1
+        pname = '%s__waitpred%s' % (cx.cname, '' if cx.wait_no == 1 else str(cx.wait_no))
+        pcx = Ctx(self, cx.D, cx.fd, pname)
+        pcx.cname = pname; pcx.exact = cx.exact; pcx.calls = set(); pcx.loops = []; pcx.cleanup = [[]]
+        pcx.cur_maythrow = False; pcx.wait_no = 0; pcx.iter_src = {}
+        # the predicate runs inside the wait statement (with the lock held): its member accesses belong to that statement
+        pcx.touch = getattr(cx, 'touch', None); pcx.touch_log = getattr(cx, 'touch_log', None)
+        params = ['struct %s *self' % cx.D]
+        for n in free:
+            pcx.declare(n, cx.local(n).noref())
+            params.append('%s %s' % (self.ctype(cx.local(n)), n))
+        pt, _ = self.ex(pe, pcx)
+        proto = '_Bool %s(%s)' % (pname, ', '.join(params))
+        text = self.hook(pname) + proto + '\nCONTRACT_%s\n{\n    return %s;\n}\n' % (pname, pt)
+        self.add_function(pname, proto, text, cx.D, dict(kind='waitpred', of=cx.cname, file=cx.fd.file, line=line))
+        cx.calls.add(pname)
+        return cvt, '%s(%s)' % (pname, ', '.join(['self'] + free))
+
     def expr_stmt(self, e, cx, ind, line):
         pad = '    ' * ind
         # cv.wait(lock, [&]{ return P; })
         if e[0] == 'call' and e[1][0] == 'member' and e[1][2] == 'wait' and len(e[2]) == 2 and e[2][1][0] == 'lambda':
-            cvt, cvty = self.ex(e[1][1], cx)
-            if self.member_kind(cvty) != 'cv': raise EmitError('%s: wait on non condition_variable' % cx.fname)
-            lam = e[2][1]
-            body = lam[3][1]
-            if lam[2] or len(body) != 1 or body[0][0] != 'return':
-                raise EmitError('%s:%d: wait predicate must be a single return expression' % (cx.fname, line))
-            pe = body[0][1]
-            free = self.free_locals(pe, cx)
-            cx.wait_no += 1
-            pname = '%s__waitpred%s' % (cx.cname, '' if cx.wait_no == 1 else str(cx.wait_no))
-            pcx = Ctx(self, cx.D, cx.fd, pname)
-            pcx.cname = pname; pcx.exact = cx.exact; pcx.calls = set(); pcx.loops = []; pcx.cleanup = [[]]
-            pcx.cur_maythrow = False; pcx.wait_no = 0; pcx.iter_src = {}
-            # the predicate runs inside the wait statement (with the lock held): its member accesses belong to that statement
-            pcx.touch = getattr(cx, 'touch', None); pcx.touch_log = getattr(cx, 'touch_log', None)
-            params = ['struct %s *self' % cx.D]
-            for n in free:
-                pcx.declare(n, cx.local(n).noref())
-                params.append('%s %s' % (self.ctype(cx.local(n)), n))
-            pt, _ = self.ex(pe, pcx)
-            proto = '_Bool %s(%s)' % (pname, ', '.join(params))
-            text = self.hook(pname) + proto + '\nCONTRACT_%s\n{\n    return %s;\n}\n' % (pname, pt)
-            self.add_function(pname, proto, text, cx.D, dict(kind='waitpred', of=cx.cname, file=cx.fd.file, line=line))
-            cx.calls.add(pname)
-            return pad + 'VB_WAIT(&%s, %s(%s));\n' % (cvt, pname, ', '.join(['self'] + free))
+            cvt, call = self.lift_wait(e, cx, line)
+            return pad + 'VB_WAIT(&%s, %s);\n' % (cvt, call)
         if e[0] == 'throw':
             if e[1] is None:
                 t = 'vb_caught'        # 'throw;' re-raises the exception the enclosing handler caught
